@@ -10,8 +10,8 @@ def txn_jobs(tier):
 
 def bus_jobs(tier):
     js = []
-    for subs, pubs in (((1, 2), (2, 2)) if tier == "quick" else ((1, 3), (2, 2), (2, 3))):
-        js.append({"id": f"O1.bus.subs{subs}.pubs{pubs}", "func": "VerifH_C20_Bus", "conf": {"subs": subs, "pubs": pubs}, "map_order": True,
+    for subs, pubs, names in (((1, 2, 3), (2, 2, 2), (3, 2, 1)) if tier == "quick" else ((1, 3, 3), (2, 2, 3), (2, 3, 2), (3, 2, 2), (3, 3, 1))):
+        js.append({"id": f"O1.bus.subs{subs}.pubs{pubs}.names{names}", "func": "VerifH_C20_Bus", "conf": {"subs": subs, "pubs": pubs, "names": names}, "map_order": True,
                    "_obligation": "O1", "_covers": ["handled"], "unwind": 200, "_blocked_ok": False})
     js.append({"id": "twin.bus", "func": "VerifH_C20_BusReach", "conf": {}, "_obligation": "vacuity", "_expect": "twin", "_covers": ["end"]})
     return js
@@ -22,7 +22,7 @@ PROPERTY = {
     "suites": [{"name": "bus", "pkg": "event", "files": ["zz_verif_c20.go"], "common": ["intrinsics"], "jobs": bus_jobs, "unwind": 200,
                 "witnesses": {"quick": 16, "thorough": 48}},
                {"name": "datastore", "pkg": "internal/datastore", "files": ["zz_verif_txn.go"], "common": ["intrinsics", "kvmodel"], "jobs": txn_jobs}],
-    "bounds": {"bus": "<=2 subscribers with any subset of {update, merge, pubsub, *} (wildcard listed first or last), <=3 publishes of symbolic names, unsubscribe at any position or never, every rotation of every map iteration; event buffers larger than the number of messages", "callbacks": "<= 2 each of success/error/discard", "commit outcome": "symbolic"},
+    "bounds": {"bus": "1-3 subscribers with any subset of up to 3 event names and * (wildcard listed first or last), 2-3 publishes of symbolic names, each subscriber subscribes at any position and unsubscribes at any later one or never, every rotation of every map iteration; event buffers larger than the number of messages", "callbacks": "<= 2 each of success/error/discard", "commit outcome": "symbolic"},
     "assumptions": ["publication of update events is registered through Txn.OnSuccess (collection.save / applyDelete); checked here is that such callbacks run iff the store commit succeeded, once, in order"],
     "outside_claim": ["that save/applyDelete register exactly one publication per new composite commit (client.Document)", "GraphQL subscriptions", "cross-goroutine ordering"],
 }
